@@ -467,9 +467,14 @@ def std_run(mod, tier, seed, focus, deadline, nproc=None, case_timeout=None) -> 
         else:
             out["errors"].append(f"worker died on case: {json.dumps(case, default=str)[:300]}")
 
+    g = gen()
     pool = Pool(mod.check, nproc)
-    for case, res, status in pool.run(gen(), d1, case_timeout):
+    for case, res, status in pool.run(g, d1, case_timeout):
         handle(case, res, status)
+    if uses_shrink and not out["cands"] and time.time() < deadline - 3:  # nothing to shrink: use the whole budget
+        pool = Pool(mod.check, nproc)
+        for case, res, status in pool.run(g, deadline, case_timeout):
+            handle(case, res, status)
     # phase 2: shrink up to 3 smallest candidates per provisional signature
     jobs = []
     for sig in sorted(out["cands"]):
@@ -651,3 +656,13 @@ def shrink_failure(check, failure: dict, base_sig: str, max_steps=60, max_second
     f["input"] = {k: v for k, v in f["input"].items() if not k.startswith("_")}
     f["detail"] = (str(f.get("detail", "")) + f" [shrunk from a {len(inp['ode'])}-char model]").strip()
     return f
+
+
+def msg_key(e, words=6) -> str:
+    """stable slug of an exception message: quotes and digits normalised, first few words"""
+    import re as _re
+
+    s = str(e).split("\n")[0]
+    s = _re.sub(r"\d+", "N", s)
+    s = _re.sub(r"[^A-Za-z_.]+", " ", s).strip().lower().split()
+    return "-".join(s[:words])[:60] or "no-message"
